@@ -15,6 +15,9 @@ def plan(ctx):
         for i in range(n):
             items.append({"profile": profile, "seed": seed * 100000 + 20000 + i, "queries": ("panic", "loc"),
                           "dedups": (True, False), "cap": cap, "reg": False, "vectors": 3})
+    # fixed templates around arrays of length 0 (the generator does not produce zero-sized types)
+    for k in range(common.ZEROLEN_FORMS):
+        items.append({"profile": "zerolen", "seed": k, "queries": ("panic", "loc"), "dedups": (True, False), "cap": cap, "reg": False, "vectors": 2})
     return items
 
 
